@@ -35,6 +35,7 @@ func runC18(c *Ctx) {
 		r.Violate("recover-barrier", "handleMessage", p.FnPos(srv), "message dispatch is not protected by a deferred recover(): one panicking handler terminates the server")
 	}
 	c18RunExits(c, p, run)
+	c18DocState(c, p)
 	// R2 who-may-call
 	senders := map[*ssa.Function]bool{}
 	for _, n := range []string{"sendResult", "sendError"} {
@@ -100,6 +101,11 @@ func runC18(c *Ctx) {
 			case o.ok:
 				r.OK("bounds", key, p.Pos(o.pos), "")
 			case lspBoundsAudit[key] != "":
+				auditDump(key, o.fp)
+				if want, ok := auditFP[key]; ok && want != o.fp {
+					r.Violate("bounds", key, p.Pos(o.pos), "this expression is in the audited table, but the values it uses are now computed differently from when it was read (fingerprint "+o.fp+", audited "+want+"): the audit no longer applies; "+o.reason)
+					continue
+				}
 				r.OK("bounds", key, p.Pos(o.pos), "audited: "+lspBoundsAudit[key])
 			default:
 				r.Violate("bounds", key, p.Pos(o.pos), "index/slice expression without a recognised bounds guard ("+o.reason+")")
